@@ -6,7 +6,7 @@ from .pipe import *
 
 RULE = ("projects over 2-4 locales with random inherits maps (chains, forks, cycles, self-reference, inheritance from the default) and "
         "random presence patterns (defined / null / absent) per key and per subkey group; thorough adds the exhaustive enumeration of all "
-        "inherits maps on 4 locales x presence patterns of one value key and one group; non-trivial = some locale falls back; distinct = distinct project text")
+        "inherits maps on 4 locales x presence patterns of one value key and one group; plural keys whose forms are written / null / partly null per locale; non-trivial = some locale falls back; distinct = distinct project text")
 
 
 def walk(inherits, default, defined, l):
@@ -51,6 +51,41 @@ def exhaustive_projects(limit=None):
                     files[(None, l)] = proj.O(pairs)
                 out.append({"default": "en", "locales": locs, "all_locales": locs, "namespaces": None, "inherits": inherits,
                             "files": files, "extra_cfg": False, "meta": {}})
+    return out
+
+
+def plural_null_projects(rng, n):
+    """a plural key `items` (forms one/other in the default locale) whose forms are, per non-default locale: all written, all null,
+    only `one` null, only `other` null, absent, or the merged key itself null — x random inherits maps on en/fr/de/es.
+    A null form is not a form: a locale that nulls its forms does not define the key and falls back like any other."""
+    locs = ["en", "fr", "de", "es"]
+    pats = ["written", "all_null", "one_null", "other_null", "absent", "key_null", "three_forms_one_null"]
+    out = []
+    for _ in range(n):
+        inherits = {}
+        for l in locs[1:]:
+            t = rng.pick([None, None] + locs)
+            if t is not None:
+                inherits[l] = t
+        files = {(None, "en"): proj.O([("items_one", "one item"), ("items_other", "{{ count }} items"), ("a", "A-en")])}
+        for l in locs[1:]:
+            pat = rng.pick(pats)
+            pairs = [("a", "A-" + l)]
+            if pat == "written":
+                pairs += [("items_one", "un-" + l), ("items_other", "{{ count }}-" + l)]
+            elif pat == "all_null":
+                pairs += [("items_one", None), ("items_other", None)]
+            elif pat == "one_null":
+                pairs += [("items_one", None), ("items_other", "{{ count }}-" + l)]
+            elif pat == "other_null":
+                pairs += [("items_one", "un-" + l), ("items_other", None)]
+            elif pat == "key_null":
+                pairs += [("items", None)]
+            elif pat == "three_forms_one_null":
+                pairs += [("items_one", "un-" + l), ("items_few", None), ("items_other", "{{ count }}-" + l)]
+            files[(None, l)] = proj.O(rng.shuffle(pairs))
+        out.append({"default": "en", "locales": locs, "all_locales": locs, "namespaces": None, "inherits": inherits,
+                    "files": files, "extra_cfg": False, "meta": {}})
     return out
 
 
@@ -145,6 +180,7 @@ def run(ctx):
     for _ in range(ctx.budget(800, 12000)):
         p = proj.gen_project(rng, opts)
         projects.append(p)
+    projects += plural_null_projects(rng, ctx.budget(300, 6000))
     generic_pipeline_check(ctx, [("I18nVerif.Theorems.C03", "C03_")], projects, oracle, "C03")
     ctx.assumptions += PARSER_ASSUMPTIONS
     finish_broken(ctx, f"{len(projects)} projects")
